@@ -17,7 +17,7 @@ MANIFEST = {
     'level_text': 'For WhenAll<None|FirstFail> and Join<None|FirstFail> (static; FirstFail also dynamic) over 2 inputs the solver shows for every payload and every well-nested '
                   'two-unit schedule: output set exactly once; without failure (or under None) only after both inputs completed, entry i = input i for every completion order; '
                   'under FirstFail the error/exception of a failed input (the first one in sequential order); inputs and combinator released exactly once; empty range -> invalid future.',
-    'level_note': 'n=2, unique futures, AllTuple not covered, well-nested schedules. Trusted: clang -O1 IR, ir2c, rt, cbmc.',
+    'level_note': 'n=2, unique futures, AllTuple not covered, well-nested schedules. Trusted: clang -O1 IR, ir2c, rt, cbmc. Schedule points: atomic operations and the plain accesses inside the combinators (Consume/Here); shared inputs with a move-marking value type sequentially.',
     'technique': 'bounded model checking of the real code with solver-decided preemption cubes',
     'design_ref': 'DESIGN.md 4 C09',
 }
